@@ -438,21 +438,42 @@ func (ex *Exec) marshalStruct(sv StructV, st *types.Struct) *Box {
 		case StrV:
 			b.Keys[k] = fv.T
 		case RefV:
-			// nested raw message
-			if len(fv.Alts) == 1 {
-				if bt, ok := fv.Alts[0].Tgt.(BoxT); ok {
-					b.IsEvent = true
-					for kk, vv := range bt.B.Keys {
-						b.Keys["data."+kk] = vv
-					}
-					b.Keys["data.!malformed"] = Ite(bt.B.Malformed, IntC(1), IntC(0))
-					continue
-				}
-			}
+			// nested raw message (possibly a guarded union of boxes): merge key-wise
 			if len(fv.Alts) == 0 {
 				continue
 			}
-			panic(unsupported("json.Marshal of field %s with reference union", k))
+			b.IsEvent = true
+			keys := map[string]bool{}
+			for _, a := range fv.Alts {
+				bt, ok := a.Tgt.(BoxT)
+				if !ok {
+					panic(unsupported("json.Marshal of field %s holding %T", k, a.Tgt))
+				}
+				for kk := range bt.B.Keys {
+					keys[kk] = true
+				}
+			}
+			mal := False
+			for kk := range keys {
+				var acc *Term = IntC(0)
+				for i, a := range fv.Alts {
+					bt := a.Tgt.(BoxT)
+					v, ok := bt.B.Keys[kk]
+					if !ok {
+						v = IntC(0)
+					}
+					if i == 0 {
+						acc = v
+					} else {
+						acc = Ite(a.C, v, acc)
+					}
+				}
+				b.Keys["data."+kk] = acc
+			}
+			for _, a := range fv.Alts {
+				mal = Or(mal, And(a.C, a.Tgt.(BoxT).B.Malformed))
+			}
+			b.Keys["data.!malformed"] = Ite(mal, IntC(1), IntC(0))
 		default:
 			panic(unsupported("json.Marshal of field %s of %T", k, fv))
 		}
@@ -476,6 +497,11 @@ func mJSONMarshal(ex *Exec, c *callCtx) Value {
 
 func mJSONUnmarshal(ex *Exec, c *callCtx) Value {
 	data := c.args[0].(RefV)
+	if len(data.Alts) > 0 {
+		if _, isLine := data.Alts[0].Tgt.(LineT); isLine {
+			return unmarshalLine(ex, c, data)
+		}
+	}
 	tgt := c.args[1].(RefV)
 	if len(tgt.Alts) != 1 {
 		panic(unsupported("json.Unmarshal target union"))
@@ -731,7 +757,7 @@ func (ex *Exec) nondet(name, kind string) Value {
 		v := Var(name, SBV(64))
 		ex.nondets = append(ex.nondets, &NondetVar{name, kind, v})
 		return IntV{v, true}
-	case "time":
+	case "time", "nat":
 		v := Var(name, SInt)
 		ex.nondets = append(ex.nondets, &NondetVar{name, kind, v})
 		ex.assume(ILe(IntC(0), v))
@@ -1051,4 +1077,28 @@ func mRepeat(ex *Exec, c *callCtx) Value {
 		return bs
 	}
 	return mOpaqueStr("repeat")(ex, c)
+}
+
+// unmarshalLine: json.Unmarshal(line, &event) for a line object of the file model.
+func unmarshalLine(ex *Exec, c *callCtx, data RefV) Value {
+	tgt := c.args[1].(RefV)
+	it := tgt.Alts[0].Tgt.(IfaceT)
+	ptr := it.V.(RefV)
+	bad := False
+	for _, a := range data.Alts {
+		lt := a.Tgt.(LineT)
+		bad = Or(bad, And(a.C, Not(lt.Cell.Parses)))
+		for _, pa := range ptr.Alts {
+			at := pa.Tgt.(AddrT)
+			cnd := And(c.guard, a.C, pa.C, lt.Cell.Parses)
+			if at.Obj.allocG == cnd || (len(data.Alts) == 1 && a.C.IsTrue() && at.Obj.allocG == And(c.guard, pa.C)) {
+				cnd = True // fresh local: its content on other paths is irrelevant
+			}
+			at.Obj.val = setPath(at.Obj.val, at.P, func(old Value) Value { return MergeV(cnd, lt.Cell.Ev, old) })
+		}
+	}
+	if bad.IsFalse() {
+		return NilRef()
+	}
+	return MergeV(bad, ex.newError("json-line", nil), NilRef())
 }
